@@ -1,5 +1,6 @@
 import AiocoapModel.Basic.Bytes
 import AiocoapModel.Codec.Message
+import AiocoapModel.Codec.Receive
 /-! Line protocol for the datagram codec model (C01).
 
 `C01 ext r <nibble> <hex>`   → `<value> <rest-hex>` | `err`        (`readExt`)
@@ -8,11 +9,15 @@ import AiocoapModel.Codec.Message
 `C01 utf8 <hex>`             → `1` | `0`                           (`utf8Valid`)
 `C01 dec <hex>`              → `ok <msg>` | `err:unparsable` | `err:escaped:<PyExceptionName>`
 `C01 enc <msg>`              → `ok <hex>` | `err:struct.error` | `err:ValueError`
+`C01 sock <hex>`             → `dispatched <msg>` | `dropped` | `escaped:<PyExceptionName>`   (`udp6Receive`: one
+                               datagram arriving on the udp6 socket)
 
 `<msg>` = `<mtype> <code> <mid> <token-hex> <payload-hex> <opt>*`, all numbers decimal;
 `<opt>` = `<num>:s:<utf8-hex>` | `<num>:o:<hex>` | `<num>:u:<hexnum>` | `<num>:c:<hexnum>` |
 `<num>:b:<block_number>/<0|1>/<szx>`; `<hexnum>` = hexadecimal digits of the integer.
 For `enc` the options are given in the order they were added to `Message.opt`.
+An option `<num>:x:<hex>` stands for an option of a format class the model has no counterpart for (the harness
+met a class name outside the five transcribed ones); such a message is answered `out-of-model`.
 -/
 namespace Aiocoap.Codec
 
@@ -74,6 +79,12 @@ def parseMsg (args : List String) : Option Msg :=
     pure { mtype, code, mid, token, opts, payload }
   | _ => none
 
+/-- an option of a value format the model does not have (`<num>:x:<hex>`) -/
+def isForeignOpt (s : String) : Bool :=
+  match s.splitOn ":" with
+  | [_, "x", _] => true
+  | _ => false
+
 def showFmt : Fmt → String
   | .string => "string" | .opaque => "opaque" | .uint => "uint" | .block => "block"
   | .contentFormat => "contentFormat"
@@ -112,7 +123,16 @@ def handleC01 (args : List String) : String :=
       | .error .unparsable => "err:unparsable"
       | .error (.escaped .unicodeDecode) => "err:escaped:UnicodeDecodeError"
     | none => "bad-op"
+  | ["sock", hex] =>
+    match hexToBytes hex with
+    | some raw =>
+      match udp6Receive raw with
+      | .dispatched m => "dispatched " ++ showMsg m
+      | .dropped => "dropped"
+      | .escaped .unicodeDecode => "escaped:UnicodeDecodeError"
+    | none => "bad-op"
   | "enc" :: rest =>
+    if (rest.drop 5).any isForeignOpt then "out-of-model" else
     match parseMsg rest with
     | some m =>
       -- `mtype` is a `Type` enum member in the code; other numbers cannot be set
